@@ -275,6 +275,9 @@ func (d *DeviceNode) Validate() error {
 		"p": {},
 	}
 
+	if d == nil || d.DeviceNode == nil {
+		return errors.New("invalid (nil) device node")
+	}
 	if d.Path == "" {
 		return errors.New("invalid (empty) device path")
 	}
@@ -297,6 +300,9 @@ type Hook struct {
 
 // Validate a hook.
 func (h *Hook) Validate() error {
+	if h == nil || h.Hook == nil {
+		return errors.New("invalid (nil) hook")
+	}
 	if _, ok := validHookNames[h.HookName]; !ok {
 		return fmt.Errorf("invalid hook name %q", h.HookName)
 	}
@@ -316,6 +322,9 @@ type Mount struct {
 
 // Validate a mount.
 func (m *Mount) Validate() error {
+	if m == nil || m.Mount == nil {
+		return errors.New("invalid (nil) mount")
+	}
 	if m.HostPath == "" {
 		return errors.New("invalid mount, empty host path")
 	}
